@@ -12,7 +12,7 @@ from engine.sx import SNum, zand, _z
 PROPERTY = "C29"
 BOUNDS = {
     "quick": "Images with ensemble shape (3, 2) x base (2, 2): every index expression made of up to 4 items out of {int, slice, None} (integers and slice bounds symbolic, "
-             "case-split by the solver), including expressions with too many indices; ordinal axis values symbolic; expand_dims/squeeze/mean/sum over every axis argument in range",
+             "case-split by the solver), including expressions with too many indices; ordinal axis values symbolic; expand_dims/squeeze/mean/sum over every axis argument in range; concatenate/stack of 2, 3 and 4 distinct operands (lengths 1, 2, 1, 2) with symbolic NonLinearAxis / ThicknessAxis values",
     "thorough": "ensemble shape (3, 2, 2); index expressions of up to 5 items; slices with steps",
 }
 OUTSIDE = ["arithmetic and reduction VALUES (numpy itself)", "lazy (dask) objects", "index arrays / masks on array objects (OrdinalAxis masks are decided in C35)"]
@@ -181,6 +181,57 @@ R_ST = make("""
 """)
 
 
+def _concat(k, axis_kind):
+    """concatenate / stack of k DISTINCT operands: joined axis values and data blocks follow the operand order"""
+    rp = R_CAT(k, axis_kind)
+
+    def fn(c):
+        ops, allvals, blocks = [], [], []
+        for j in range(k):
+            n = 1 + (j % 2)  # operand lengths 1, 2, 1, 2
+            arr = (100 * (j + 1) + np.arange(n * 4, dtype=np.float32)).reshape(n, 2, 2)
+            vals = tuple(c.real(f"v{j}_{i}") for i in range(n))
+            if axis_kind == "nonlinear":
+                ax = NonLinearAxis(label="p", units="mrad", values=vals)
+            else:
+                from abtem.core.axes import ThicknessAxis
+                ax = ThicknessAxis(label="z", values=vals)
+            ops.append(Images(arr, sampling=0.1, ensemble_axes_metadata=[ax], metadata={"m": j}))
+            allvals += list(vals)
+            blocks.append(arr)
+        cat = A.concatenate(ops, axis=0)
+        want = np.concatenate(blocks, axis=0)
+        got_vals = tuple(cat.ensemble_axes_metadata[0].values)
+        c.prove("concatenate.data_blocks_in_operand_order", bool(np.asarray(cat.array).shape == want.shape and np.array_equal(np.asarray(cat.array), want)), replay=rp)
+        c.prove("concatenate.axis_values_in_operand_order", zand(len(got_vals) == len(allvals), *[_z(x) == _z(y) for x, y in zip(got_vals, allvals)]), replay=rp)
+        same_len = [o for o in ops if o.shape[0] == 1]
+        if len(same_len) >= 2:
+            st = A.stack(same_len, axis_metadata=OrdinalAxis(label="k", values=tuple(range(len(same_len)))), axis=0)
+            c.prove("stack.blocks_in_operand_order", bool(np.array_equal(np.asarray(st.array), np.stack([np.asarray(o.array) for o in same_len]))), replay=rp)
+        c.canary("concatenate.canary_sorted", zand(*[_z(a) <= _z(b) for a, b in zip(got_vals, got_vals[1:])]))
+    return fn
+
+
+def R_CAT(k, axis_kind):
+    return make("""
+    import abtem
+    from abtem.measurements import Images
+    from abtem.core.axes import NonLinearAxis, ThicknessAxis
+    from abtem.array import concatenate
+    ops, allvals, blocks = [], [], []
+    for j in range(K):
+        n = 1 + (j % 2)
+        arr = (100 * (j + 1) + np.arange(n * 4, dtype=np.float32)).reshape(n, 2, 2)
+        vals = tuple(float(V.get(f'v{j}_{i}', 10 * j + i)) for i in range(n))
+        if len(set(allvals + list(vals))) != len(allvals) + n: vals = tuple(10.0 * j + i + 0.5 for i in range(n))
+        ax = NonLinearAxis(label='p', units='mrad', values=vals) if KIND == 'nonlinear' else ThicknessAxis(label='z', values=vals)
+        ops.append(Images(arr, sampling=0.1, ensemble_axes_metadata=[ax])); allvals += list(vals); blocks.append(arr)
+    cat = concatenate(ops, axis=0)
+    if not np.array_equal(np.asarray(cat.array), np.concatenate(blocks)): bad, why = True, "concatenate: data blocks not in operand order"
+    if tuple(cat.ensemble_axes_metadata[0].values) != tuple(allvals): bad, why = True, f"concatenate of {K} operands: axis values {tuple(cat.ensemble_axes_metadata[0].values)} but the data are in the order {tuple(allvals)}"
+""", K=k, KIND=axis_kind)
+
+
 def cases(tier):
     q = tier == "quick"
     out = []
@@ -195,4 +246,7 @@ def cases(tier):
                 continue
             out.append(Case("index." + "".join(struct), _index(struct), setup=_setup, max_paths=6000, budget_s=240 if q else 1500))
     out.append(Case("structural", _structural, setup=_setup))
+    for k in (2, 3, 4) if q else (2, 3, 4, 5):
+        for kind in ("nonlinear", "thickness"):
+            out.append(Case(f"concatenate.k{k}.{kind}", _concat(k, kind), setup=_setup))
     return out
